@@ -4,6 +4,8 @@
    returned; 3 the model faulted where the implementation did not. *)
 From Coq Require Import String.
 From QF Require Import Base.Prelude Base.CaseLib Gen.GenConsts Model.Sql Model.IOFault.
+(* opt_all, spec_is_null, spec_column, column_vals, nodupb, prep, g_of, spec_read_gen, spec_read_must_fail *)
+From QF Require Export Model.SqlSpec.
 Local Open Scope N_scope.
 
 (* ------------------------------------------------------------------ equality on observables *)
@@ -115,46 +117,9 @@ Definition spec_cell (c : coldata) (p : nat) : option dval :=
       end
   end.
 
-Fixpoint opt_all {A} (l : list (option A)) : option (list A) :=
-  match l with
-  | [] => Some []
-  | Some x :: r => option_map (cons x) (opt_all r)
-  | None :: _ => None
-  end.
-
 (* the rows of the frame in frame order *)
 Definition spec_rows (f : frame) : option (list (list dval)) :=
   opt_all (map (fun p => opt_all (map (fun c => spec_cell (snd c) p) (fcols f))) (findex f)).
-
-(* what a driver value becomes in a frame column of result type k *)
-Definition spec_is_null (v : dval) : bool := match v with DNull => true | _ => false end.
-
-(* the column a homogeneous list of driver values denotes (None: outside the property's quantifier:
-   mixed types, NULL in an int/bool column, no non-NULL value, unsupported type) *)
-Definition spec_column (vals : list dval) : option coldata :=
-  match find (fun v => negb (spec_is_null v)) vals with
-  | Some (DInt _) =>
-      option_map CInt (opt_all (map (fun v => match v with DInt z => Some z | _ => None end) vals))
-  | Some (DBool _) =>
-      option_map CBool (opt_all (map (fun v => match v with DBool z => Some z | _ => None end) vals))
-  | Some (DFloat _) =>
-      option_map CFloat (opt_all (map (fun v => match v with DFloat z => Some z | DNull => Some nan_bits | _ => None end) vals))
-  | Some (DStr _) | Some (DBytes _) =>
-      option_map CStr (opt_all (map (fun v => match v with
-                                               | DStr z => Some (Some z) | DBytes z => Some (Some z)
-                                               | DNull => Some None | _ => None end) vals))
-  | _ => None
-  end.
-
-(* column j of a list of rows *)
-Definition column_vals (rows : list (list dval)) (j : nat) : list dval :=
-  map (fun r => nth j r DNull) rows.
-
-Fixpoint nodupb (l : list bytes) : bool :=
-  match l with
-  | [] => true
-  | x :: r => negb (existsb (bytes_eqb x) r) && nodupb r
-  end.
 
 (* the frame the property demands for a result set (None: outside the quantifier) *)
 Definition spec_read (names : list bytes) (rows : list (list dval)) : option (list (bytes * coldata)) :=
@@ -213,6 +178,31 @@ Definition opt_nat_eqb (a b : option nat) : bool := option_eqb Nat.eqb a b.
 Definition has_coerce (conf : sql_config) : bool :=
   match q_coerce conf with Some (_ :: _) => true | _ => false end.
 
+(* the per-case oracle tables hold every entry the specification of this read can ask for: the text of
+   every non-NULL string of a StringToFloat column (and, with Precision > 0, its parsed value), and with
+   Precision > 0 every float64 of a column without coercion.  Where an entry is missing the case is
+   open for the property oracle (not a violation). *)
+Definition tab_has_fixed (t : fixed_tab) (f : N) (p : Z) : bool :=
+  existsb (fun e => (fst (fst e) =? f) && (snd (fst e) =? p)%Z) t.
+Definition tab_has_parse (t : parse_tab) (s : bytes) : bool :=
+  existsb (fun e => bytes_eqb (fst e) s) t.
+Definition val_known (ft : fixed_tab) (pt : parse_tab) (prec : Z) (co : option coerce_kind) (v : dval) : bool :=
+  match co, v with
+  | Some CoStringToFloat, DStr s =>
+      tab_has_parse pt s &&
+      match tab_parse pt s with
+      | Some x => (prec <=? 0)%Z || tab_has_fixed ft x prec
+      | None => true
+      end
+  | Some _, _ => true
+  | None, DFloat x => (prec <=? 0)%Z || tab_has_fixed ft x prec
+  | None, _ => true
+  end.
+Definition tabs_cover (ft : fixed_tab) (pt : parse_tab) (conf : sql_config) (names : list bytes)
+           (rows : list (list dval)) : bool :=
+  forallb (fun r => forallb (fun nv => val_known ft pt (q_precision conf) (co_of conf (fst nv)) (snd nv))
+                            (combine names r)) rows.
+
 Definition check_sql (c : sql_case) : N :=
   match c with
   | SqlIns names table esc incr text =>
@@ -264,17 +254,25 @@ Definition check_sql (c : sql_case) : N :=
       let m := robs_of (read_sql (tab_fixed ft) (tab_parse pt) conf rs flt) in
       let faulty := sf_prepare flt || sf_query flt ||
                     match sf_row flt with Some k => Nat.leb k (length (rs_rows rs)) | None => false end in
+      (* oracle, for EVERY configuration (coercion map, Precision): ReadSQL never panics; every driver
+         fault surfaces; without a fault, where the specification defines the frame (spec_read_gen =
+         Some d: C19_read_coerced) exactly that frame is returned, and where it says the read must fail
+         (a coercion error on a non-NULL value, a NULL after the first value of an int / bool column:
+         C19_read_must_fail) no frame is returned.  Result sets outside both stay open. *)
+      let fx := tab_fixed ft in
+      let pfn := tab_parse pt in
+      let known := tabs_cover ft pt conf (rs_names rs) (rs_rows rs) in
+      let spec := spec_read_gen fx pfn conf (rs_names rs) (rs_rows rs) in
       let spec_bad :=
         match obs with
         | RPanic => true
-        | RErr => negb faulty && negb (has_coerce conf) && (q_precision conf <=? 0)%Z
-                  && match spec_read (rs_names rs) (rs_rows rs) with Some _ => true | None => false end
+        | RErr => negb faulty && known && match spec with Some _ => true | None => false end
         | RFrame cols =>
             faulty ||
-            (negb (has_coerce conf) && (q_precision conf <=? 0)%Z &&
-             match spec_read (rs_names rs) (rs_rows rs) with
+            (known &&
+             match spec with
              | Some d => negb (cols_eqb float_cell_eqb d cols)
-             | None => false
+             | None => spec_read_must_fail fx pfn conf (rs_names rs) (rs_rows rs)
              end)
         end in
       if spec_bad then 2
